@@ -34,7 +34,7 @@ class WorldC17(World):
               'pop-last', 'pop-middle', 'pop0-refused', 'shared-lists-edit',
               'eval-on-breakpoint', 'eval-beyond-last', 'reload-after-edit', 'single-breakpoint-effect',
               'reload-via-hook', 'two-edits-between-evaluations', 'restore-after-edits', 'integer-slopes', 'snapshot-copy-evaluated', 'pop-with-numpy-index',
-              'exported-then-used')
+              'exported-then-used', 'insert-a-hair-from-a-breakpoint')
     REAL = ('pmutt.mixture.cov.PiecewiseCovEffect (all methods)', 'pmutt.io.json encoder/object hook',
             'json module')
     SIMULATED = ('1-3 clients issuing calls over a shared pool of effects (seeded scheduler)',
@@ -128,12 +128,17 @@ class WorldC17(World):
             kind = 'insert'
         if kind == 'insert':
             bps = [p[0] for p in pairs]
-            where = rng.choice(['between', 'between', 'equal', 'above', 'above', 'equal-last', 'any'] +
+            where = rng.choice(['between', 'between', 'equal', 'above', 'above', 'equal-last', 'any', 'near'] +
                                (['negative'] if sw['negatives'] else []))
             if where == 'between' and n >= 2:
                 j = rng.randrange(n - 1)
                 lo, hi = bps[j], bps[j + 1]
                 x = round(lo + (hi - lo) * rng.uniform(0.1, 0.9), 6)
+            elif where == 'near':
+                # a hair below or above an existing breakpoint (not equal to it)
+                b0 = rng.choice(bps[1:] or bps)
+                x = b0 + rng.choice([-1, 1]) * rng.choice([1e-6, 3e-6, 1e-7, 1e-9]) * max(b0, 0.1)
+                x = min(max(x, 1e-9), 1.0)
             elif where == 'equal':
                 x = rng.choice(bps)
             elif where == 'equal-last':
@@ -221,6 +226,8 @@ class WorldC17(World):
                 ctx.probe('insert-negative')
             else:
                 ctx.probe('insert-between')
+                if any(abs(x - b_) < 1e-5 * max(b_, 0.1) for b_ in bps):
+                    ctx.probe('insert-a-hair-from-a-breakpoint')
             try:
                 self.real(obj.insert, x, s, _allowed=(ValueError,) if x < 0 else (), _what='insert')
             except ValueError:
